@@ -19,8 +19,28 @@ Reference semantics (rows are Python list OBJECTS):
   * the matrix is compared with the reference after EVERY operation, not only at the end;
   * a secret index outside the array raises IndexError wherever it is used outside a not-taken branch, however often and
     wherever the same index object was used before;
-  * a row built outside the matrix (["newrow", name, values], any length) stored with `a[i] = row` replaces row i and no
-    other element, whatever its length (lists of lists may be ragged).
+  * a row built outside the matrix (["newrow", name, values], any length) stored with `a[i] = row` at a PLAIN index replaces
+    row i and no other element, whatever its length (lists of lists may be ragged).  Where the code has to combine rows
+    element-wise it REFUSES rows of different lengths with ValueError (Array.__add__/__sub__; it used to zip them to the
+    shorter one: finding C15-row-store-other-length, repaired): a store at a SECRET index of a row whose length differs from
+    that of any row it is not identical to, and every row read at a secret index of a ragged matrix (a[i], a[i,j], a[i][j],
+    a[i,j] = v, gather) -- also inside a branch that is not taken: the lengths are part of the public shape, not of the
+    secret data.  The reference raises ValueError at exactly these points (after the IndexError test of the index itself);
+    a refused secret-index store may already have rebuilt the rows before the offending one (the code assigns row by row):
+    the worker puts the row objects back so that the state reported for a refused operation is the state before it;
+  * a history may run with the Python-level checks switched off (`"ign": 1`, `ignore_errors(True)`: the library's model of a
+    prover that does not follow the rules).  The reference is unchanged: where it raises IndexError for a secret index
+    outside the array, the code must either raise as well (any class: a refusal) or have recorded, by the end of THAT
+    operation, at least one constraint that the recorded witness violates (`unsat_first`); after that point values are
+    unspecified and only the model is compared;
+  * matrices may have an EMPTY dimension (`init` = [] or rows of length 0) and rows built outside may be empty: every
+    element access is then outside the array.
+
+Second protocol `ND|id|<json>` (direct oracle only, no model): ONE access on an array nested 1-3 levels deep, any dimension
+possibly empty, index components plain / secret, inside or outside the bounds, checks on or off, over any prime (p = 97
+for the witness-space search of harness/props/c15.py): reports exception class, contents before / after, value read,
+the constraints in canonical text form, the recorded witness, the wires of the index components and the violated
+constraints.
 """
 import sys, os, json, traceback
 sys.path.insert(0, os.path.dirname(os.path.abspath(__file__)))
@@ -74,7 +94,13 @@ class Real:
         elif k == "set1": v[op[1]][ix(op[2])] = op[3]
         elif k == "setchain": m[op[1]][ix(op[2])] = op[3]
         elif k == "set2": m[ix(op[1]), ix(op[2])] = op[3]
-        elif k == "setrow": m[ix(op[1])] = v[op[2]]
+        elif k == "setrow":
+            i = ix(op[1]); saved = list(m.arr)
+            try:
+                m[i] = v[op[2]]
+            except ValueError:
+                m.arr[:] = saved            # see the module docstring: the state of a refused store is the state before it
+                raise
         elif k == "gather": self.m = Array([m[ix(sp)] for sp in op[1]])
         elif k == "newrow": v[op[1]] = Array(list(op[2]))
         else: raise ValueError("op " + k)
@@ -105,6 +131,10 @@ class Ref:
         if sec and not 0 <= i < n: raise IndexError(i)
         return sec, i
 
+    def rect(self):
+        """a row read at a secret index combines all rows element-wise: rows of different lengths are refused"""
+        if len({len(row) for row in self.ref}) > 1: raise ValueError("arrays not of the same length")
+
     def rebuild(self, r, newrow, keep=None):
         """a write at a secret row index: every row becomes a fresh object (except one identical to the stored value)"""
         self.ref = [(newrow if k == r else row) if (keep is not None and row is keep) else Row(newrow if k == r else row)
@@ -116,6 +146,7 @@ class Ref:
         if k == "idx": self.idx[op[1]] = (bool(op[2]), op[3])
         elif k == "row":
             sec, i = self.ix(op[2], nr)
+            if sec: self.rect()
             v[op[1]] = ("rowview", Row.snapshot(ref[i])) if sec else ("alias", ref[i])
         elif k == "copy":
             v[op[1]] = ("array", Row(v[op[2]][1]))
@@ -123,12 +154,19 @@ class Ref:
             kind, lst = v[op[2]]
             sec, i = self.ix(op[3], len(lst)); v[op[1]] = ("scalar", lst[i])
         elif k in ("get2", "getrc"):
-            sr, r = self.ix(op[2], nr); sc, c = self.ix(op[3], len(ref[r])); v[op[1]] = ("scalar", ref[r][c])
+            sr, r = self.ix(op[2], nr)
+            if sr: self.rect()
+            sc, c = self.ix(op[3], len(ref[r])); v[op[1]] = ("scalar", ref[r][c])
         elif k == "bget":
             if op[2]:
-                sr, r = self.ix(op[3], nr); sc, c = self.ix(op[4], len(ref[r])); v[op[1]] = ("scalar", ref[r][c])
+                sr, r = self.ix(op[3], nr)
+                if sr: self.rect()
+                sc, c = self.ix(op[4], len(ref[r])); v[op[1]] = ("scalar", ref[r][c])
             else:
-                v[op[1]] = ("scalar", 0)        # branch not taken: nothing inside it can raise
+                # branch not taken: no index can raise; the shape test of a secret-index row read still does
+                sp = op[3]
+                if sp[0] == "s" or (sp[0] == "n" and self.idx[sp[1]][0]): self.rect()
+                v[op[1]] = ("scalar", 0)
         elif k == "set1":
             kind, lst = v[op[1]]
             if lst.ro: raise TypeError("read-only row")
@@ -138,6 +176,7 @@ class Ref:
             sec, c = self.ix(op[2], len(ref[op[1]])); ref[op[1]][c] = op[3]
         elif k == "set2":
             sr, r = self.ix(op[1], nr)
+            if sr: self.rect()
             sc, c = self.ix(op[2], len(ref[r]))
             if sr:
                 row = Row(ref[r]); row[c] = op[3]; self.rebuild(r, row)
@@ -148,17 +187,77 @@ class Ref:
         elif k == "setrow":
             sr, r = self.ix(op[1], nr)
             kind, lst = v[op[2]]
-            if sr: self.rebuild(r, lst, keep=lst)
+            if sr:
+                # if_then_else(ixs[k], value, row_k) for every row: `value - row_k` unless they are the same object
+                if any(row is not lst and len(row) != len(lst) for row in ref): raise ValueError("arrays not of the same length")
+                self.rebuild(r, lst, keep=lst)
             else: ref[r] = lst
         elif k == "gather":
             rows = []
             for sp in op[1]:
                 sec, i = self.ix(sp, nr)
+                if sec: self.rect()
                 rows.append(Row.snapshot(ref[i]) if sec else ref[i])
             self.ref = rows
         elif k == "newrow":
             v[op[1]] = ("array", Row(op[2]))          # a row built outside the matrix, of any length
         else: raise ValueError("op " + k)
+
+
+def nd(h):
+    """one access on a nested array: see the module docstring"""
+    p = h.get("p") or W.DEFAULT_P
+    W.reset({"p": p, "bl": 8, "ign": 1 if h.get("ign") else 0})
+    cnt = [0]
+
+    def build(shape):
+        if len(shape) == 1:
+            out = []
+            for _ in range(shape[0]):
+                cnt[0] += 1
+                out.append(PrivVal(cnt[0]) if h["secret"] else cnt[0])
+            return Array(out)
+        return Array([build(shape[1:]) for _ in range(shape[0])])
+
+    arr = build(h["shape"])
+    before = plain(arr)
+    idx = []; idxw = []
+    for kind, v in h["idx"]:
+        if kind == "s":
+            idxw.append(f"w{len(B.privvals) + 1}"); idx.append(PrivVal(v))
+        else:
+            idxw.append(None); idx.append(v)
+    val = None; valw = None
+    if h["op"].startswith("set"):
+        if h.get("valsecret"):
+            valw = f"w{len(B.privvals) + 1}"; val = PrivVal(h["val"])
+        else:
+            val = h["val"]
+    ninputs = len(B.privvals); c0 = len(B.constraints)
+    status = "ok"; res = None; msg = ""
+    try:
+        op = h["op"]
+        key = idx[0] if len(idx) == 1 and not h.get("tuple1") else tuple(idx)
+        if op == "get": res = arr[key]
+        elif op == "getchain":
+            res = arr
+            for i in idx: res = res[i]
+        elif op == "set": arr[key] = val
+        elif op == "setchain":
+            t = arr
+            for i in idx[:-1]: t = t[i]
+            t[idx[-1]] = val
+        else: raise ValueError("op " + op)
+    except Exception as e:
+        status = type(e).__name__; msg = str(e)[:120]
+    cons = [f"{W.canon.canon_lc(a, p)} @ {W.canon.canon_lc(b, p)} = {W.canon.canon_lc(c, p)}" for (a, b, c) in B.constraints]
+    unsat = [i for i, (a, b, c) in enumerate(B.constraints) if (W.ev(a, p) * W.ev(b, p) - W.ev(c, p)) % p != 0]
+    incoh = res is not None and any((s.value - W.ev(s.lc, p)) % p for s in secrets(res))
+    out = {"status": status, "msg": msg, "before": before, "after": plain(arr), "res": plain(res) if res is not None else None,
+           "cons": cons, "ncons_before": c0, "priv": [int(x) % p for x in B.privvals], "npub": len(B.pubvals), "ninputs": ninputs,
+           "idxw": idxw, "valw": valw, "unsat": unsat[:5], "incoh": bool(incoh),
+           "dirty": [W.R.guard is not None, LinComb.ONE is not LinComb.ONE_SAFE]}
+    return out
 
 
 def lc_strings(real, p):
@@ -174,7 +273,10 @@ def main():
         f = line.rstrip("\n").split("|", 2)
         try:
             h = json.loads(f[2])
-            W.reset({"p": W.DEFAULT_P, "bl": 8})
+            if f[0] == "ND":
+                sys.stdout.write(f"{f[1]}|" + json.dumps(nd(h)) + "\n"); sys.stdout.flush()
+                continue
+            W.reset({"p": W.DEFAULT_P, "bl": 8, "ign": 1 if h.get("ign") else 0})
             p = W.DEFAULT_P
             real = Real(h); ref = Ref(h)
             status = "ok"; refstatus = "ok"; at = None
@@ -182,6 +284,7 @@ def main():
             # numbers of wires / constraints at that point (a failing operation is cut off: the model reports the state
             # before it)
             trace = []; mark = (len(B.pubvals), len(B.privvals), len(B.constraints)); rat = None
+            ncons_first = None          # number of constraints recorded when the operation `at` had finished
             ops = [norm(op) for op in h["ops"]]
             n = -1
             for n, op in enumerate(ops):
@@ -195,7 +298,7 @@ def main():
                 except Exception as e:
                     refstatus = type(e).__name__
                 if status != "ok" or refstatus != "ok":
-                    at = n
+                    at = n; ncons_first = len(B.constraints)
                     break
                 if plain(real.m) != ref.ref:            # compared after every step: `at` is the first operation after which they differ
                     at = n
@@ -212,13 +315,14 @@ def main():
                         rstatus = type(e).__name__; rat = n2
                         break
             unsat = [i for i, (a, b, c) in enumerate(B.constraints) if (W.ev(a, p) * W.ev(b, p) - W.ev(c, p)) % p != 0]
+            unsat_first = [i for i in unsat if ncons_first is not None and i < ncons_first]
             incoh = [k for k, x in list(real.vars.items()) + [("matrix", real.m)] if any((s.value - W.ev(s.lc, p)) % p for s in secrets(x))]
             lcs = lc_strings(real, p)
             rvars = {k: plain(v) for k, v in real.vars.items()}
             del B.pubvals[mark[0]:]; del B.privvals[mark[1]:]; del B.constraints[mark[2]:]
             out = {"status": status, "refstatus": refstatus, "at": at, "m": snap["m"], "ref": ref.ref,
                    "vars": snap["vars"], "rvars": {k: v[1] for k, v in ref.vars.items()},
-                   "unsat": unsat[:3], "incoh": incoh[:3],
+                   "unsat": unsat[:3], "incoh": incoh[:3], "unsat_first": unsat_first[:3], "ign": 1 if h.get("ign") else 0,
                    "real": {"status": rstatus, "at": rat, "trace": trace, "vars": rvars, "lcs": lcs, "state": W.state_str(p)}}
             res = f"{f[1]}|" + json.dumps(out)
         except BaseException as e:
